@@ -449,7 +449,7 @@ pub fn explore_theory(th: &Theory, make: fn() -> Box<dyn DynModel>, b: &Bounds, 
                 if r.is_ok() && is_close {
                     let s = dump_structure(th, &*run.model);
                     nontrivial = some_rule_matches(th, &s);
-                    if oracles.c03 {
+                    if oracles.c03 && !step.violations.iter().any(|v| v.0.starts_with("not-closed")) {
                         let (canon, names) = canonical_assertions(th, &run.assertions);
                         let roots = run.handle_roots();
                         let named = names.into_iter().enumerate().map(|(h, n)| (n, run.handles[h].0, roots[h])).collect();
